@@ -47,9 +47,10 @@ theorem c07_source_facts :
     IpcHub.Gen.tsMuxerProcessRecoverInLoop = false ∧
     IpcHub.Gen.flvProcessConds = ["if r != nil", "for !muxer.closed", "if f == nil", "if !muxer.closed", "if !packSequenceHeader", "if !muxer.videoMetaReady()", "switch frame.MediaType", "case codec.MediaTypeVideo", "if err != nil", "case codec.MediaTypeAudio", "if err != nil", "default"] ∧
     IpcHub.Gen.flvSequenceHeaderBlock = ["if !muxer.videoMetaReady() { continue }", "muxer.muxMetadataTag()", "muxer.vp.PacketizeSequenceHeader()", "muxer.ap.PacketizeSequenceHeader()", "packSequenceHeader = true"] ∧
-    IpcHub.Gen.flvVideoMetaReadyConds = ["if vm.Codec == \"H265\""] ∧
-    IpcHub.Gen.flvVideoMetaReadyReturns = ["return len(vm.Vps) > 0 && len(vm.Sps) > 0 && len(vm.Pps) > 0", "return len(vm.Sps) >= 4 && len(vm.Pps) > 0"] ∧
+    IpcHub.Gen.flvVideoMetaReadyConds = ["if vm.Codec == \"H265\"", "if len(vm.Vps) == 0 || len(vm.Sps) == 0 || len(vm.Pps) == 0", "if vm.Width != 0", "if len(vm.Sps) < 4 || len(vm.Pps) == 0", "if vm.Width != 0"] ∧
+    IpcHub.Gen.flvVideoMetaReadyReturns = ["return false", "return true", "return sps.Decode(vm.Sps) == nil", "return false", "return true", "return sps.Decode(vm.Sps) == nil"] ∧
     IpcHub.Gen.flvWaitsForParameterSets = true ∧
+    IpcHub.Gen.flvValidatesSps = true ∧
     IpcHub.Gen.flvH264PacketizeConds = ["if frame.Payload[0]&0x1F == h264.NalIdrSlice"] ∧
     IpcHub.Gen.tsAacPacketizeConds = ["if ap.audioSps == nil"] ∧
     IpcHub.Gen.tsAacChecked = true ∧
@@ -137,7 +138,7 @@ theorem c07_gen_cfg_safe :
     Pipeline.genCfg.cache264Checked = true ∧ Pipeline.genCfg.cache265Checked = true ∧
     Pipeline.genCfg.flvWaitsForParameterSets = true ∧ Pipeline.genCfg.tsAacChecked = true ∧
     genRtpCfg.unknownChannelTolerated = true ∧ genRtpCfg.badHeaderTolerated = true ∧
-    genRtpCfg.headerPanicRecovered = true := by
+    genRtpCfg.headerPanicRecovered = true ∧ Pipeline.genCfg.flvValidatesSps = true := by
   refine ⟨⟨?_, ?_, ?_, ?_, ?_, ?_, ?_, ?_⟩, ?_⟩ <;> decide
 
 /-- C07 (totality), depacketizers: for EVERY byte string as RTP payload, every packet header,
@@ -176,7 +177,7 @@ theorem c07_classifier_total (c : VCodec) (payload : Bytes) :
 theorem c07_receive_never_closes (chans : List Int) (ch : Nat) (data : Bytes) :
     RtpPacket.receive genRtpCfg chans ch data ≠ .close ∧ RtpPacket.receive genRtpCfg chans ch data ≠ .panic :=
   RtpPacket.receive_never_closes _ c07_gen_cfg_safe.2.2.2.2.2.1 c07_gen_cfg_safe.2.2.2.2.2.2.1
-    c07_gen_cfg_safe.2.2.2.2.2.2.2 chans ch data
+    c07_gen_cfg_safe.2.2.2.2.2.2.2.1 chans ch data
 
 /-- C07: demuxer, FLV muxer and TS muxer goroutines all survive one packet of arbitrary bytes on
     any channel, in every pipeline state, whatever the SDP's AAC config was (`ascOk`). -/
@@ -369,8 +370,41 @@ theorem c07_bad_sps_sticks_witness :
     goroutine died.  The repaired worker (C08 fix c2b314b) drops frames until the sets are known. -/
 theorem c07_flv_audio_first_witness :
     let f : Frame := ⟨true, 0, 0, [0x21, 0x10]⟩
-    (flvStep Pipeline.pinnedCfg .h264 true {} {} f).1.alive = false ∧
-    (flvStep Pipeline.genCfg .h264 true {} {} f) = ({}, [], .ok) := by
+    (flvStep Pipeline.pinnedCfg (fun _ => true) .h264 true {} {} f).1.alive = false ∧
+    (flvStep Pipeline.genCfg (fun _ => true) .h264 true {} {} f) = ({}, [], .ok) := by
+  decide
+
+/-- FIXED in round 2 (5ebbb31): flv.Muxer.videoMetaReady accepted any SPS of ≥ 4 bytes.  A stream
+    without SDP parameter sets whose first SPS arrives truncated (`67 aa bb cc dd`, rejected by the
+    decoder), followed by a PPS and an AAC frame: the FLV worker built the sequence header from the
+    damaged SPS on the audio frame; the sender's real SPS / PPS / IDR that follow are handed on, but
+    the header is sent once — every FLV client of the stream gets an undecodable configuration.
+    The repaired worker waits for an SPS that is validated or decodes.
+    Replayed: corpus/C07/damaged-sps-in-sequence-header.case -/
+theorem c07_flv_damaged_sps_witness :
+    let ok : Bytes → Bool := fun b => b == [0x67, 0x42, 0x00, 0x1e]
+    let s : St := { demux := { codec := .h264, hasAac := true } }
+    let ins : List In := [pk 1 [0x67, 0xaa, 0xbb, 0xcc, 0xdd], pk 2 [0x68, 0xce], .audio ⟨1, 1024, true, aacPayload [[1, 2]]⟩,
+      pk 3 [0x67, 0x42, 0x00, 0x1e], pk 4 [0x68, 0xce], pk 5 [0x65, 0x88]]
+    (runPipe Depack.genCfg { Pipeline.genCfg with flvValidatesSps := false } ok true false s ins).2.2.1
+      = [.script, .vseq [0x67, 0xaa, 0xbb, 0xcc, 0xdd] [0x68, 0xce], .aseq, .audio [1, 2], .video false [0x67, 0x42, 0x00, 0x1e],
+         .video false [0x68, 0xce], .video true [0x65, 0x88]] ∧
+    (runPipe Depack.genCfg Pipeline.genCfg ok true false s ins).2.2.1
+      = [.script, .vseq [0x67, 0x42, 0x00, 0x1e] [0x68, 0xce], .aseq, .video false [0x67, 0x42, 0x00, 0x1e],
+         .video false [0x68, 0xce], .video true [0x65, 0x88]] := by
+  decide
+
+/-- OPEN (known finding `h264:flv-sequence-header-pps-from-malformed-packet`): a PPS cannot be
+    validated by the server (there is no PPS parser), so a PPS-typed malformed packet that arrives
+    while no PPS is stored — a stream without SDP parameter sets, after the sender's SPS and before
+    its PPS — is stored, the depacketizer becomes ready with it, and the sender's real PPS that
+    follows is ignored: the FLV sequence header and the TS key-frame headers carry the damaged PPS. -/
+theorem c07_damaged_pps_sticks_witness :
+    let ok : Bytes → Bool := fun b => b == [0x67, 0x42, 0x00, 0x1e]
+    let s : St := { demux := { codec := .h264, hasAac := false } }
+    let ins : List In := [pk 1 [0x67, 0x42, 0x00, 0x1e], pk 2 [0x68, 0xff, 0xff], pk 3 [0x68, 0xce], pk 4 [0x65, 0x88]]
+    (runPipe Depack.genCfg Pipeline.genCfg ok true false s ins).2.2.1
+      = [.script, .vseq [0x67, 0x42, 0x00, 0x1e] [0x68, 0xff, 0xff], .video false [0x68, 0xff, 0xff], .video false [0x68, 0xce], .video true [0x65, 0x88]] := by
   decide
 
 /-- the pinned TS muxer dereferenced a nil AudioSpecificConfig on the first audio frame when the
